@@ -141,13 +141,21 @@ def cookie_sets(r):
                 # client must receive the same cookie lines
                 try:
                     W = _wrappers(iface)
-                    for stack in (("M",), ("M", "M"), ("E",)):
+                    for stack in (("M",), ("M", "M"), ("E",), ("C",), ("X",), ("C", "X"), ("E", "C")):
                         def through(resp, stack=stack):
                             app = resp
                             for name in stack:
                                 app = W[name](app)
                             return app
                         lines2, res2 = emit_cookie_line(iface, setter, through=through)
+                        # what the middleware itself adds on top (its own cookie, a deletion, a header) arrives as well
+                        own = [l for l in lines2 if l.startswith(("mw=", "old="))]
+                        lines2 = [l for l in lines2 if not l.startswith(("mw=", "old="))]
+                        want_own = sorted(["mw"] * stack.count("C") + ["old"] * stack.count("X"))
+                        hdrs = {k.lower(): v for k, v in res2.headers}
+                        if sorted(l.split("=")[0] for l in own) != want_own or ("E" in stack and hdrs.get("x-edited") != "yes") or ("X" in stack and hdrs.get("x-after") != "1"):
+                            r.violation("sets:middleware-own-additions-lost", dict(w, stack=list(stack)), f"{iface} cookies {combo} behind middleware {stack} that adds {want_own} (and a header): client got own cookie lines {own!r:.160}, headers {sorted(k for k in hdrs if k.startswith('x-'))}")
+                            break
                         if sorted(lines2) != sorted(lines):
                             r.violation("sets:middleware-changes-lines", dict(w, stack=list(stack)), f"{iface} cookies {combo} behind identity middleware {stack}: Set-Cookie lines {lines2!r:.200} instead of {lines!r:.200}")
                             break
